@@ -8,9 +8,14 @@ COMMON = {'NoPanic', 'NoHang'}
 HARNESS = {'UnknownEvent', 'HarnessOK', 'RecorderHonest', 'HintsAligned', 'RunComplete'}
 
 
+# clauses that restate a sentence shared by two properties ("every metadata entry the handler attached" is C02 and C08)
+SHARED = {'C02': {'C08.ErrorMetadataReceived', 'C08.InitialMetadataReceived', 'C08.HandlerSeesRequestMetadata'},
+          'C03': set(), 'C05': set(), 'C08': set()}
+
+
 def clause_filter(prop):
     def f(c):
-        return c.startswith(prop + '.') or c in COMMON
+        return c.startswith(prop + '.') or c in COMMON or c in SHARED.get(prop, ())
     return f
 
 
